@@ -30,7 +30,6 @@ def run(ctx):
                                 nprobes=250 if q else 12000, maxpar=8 if q else 12, nshards=6 if q else 12)
     fs = ftot["stat"]
     ctx.coverage.update({
-        "states": st, "transitions": tr,
         "traces_validated_against_impl": tot["traces"] + ftot["fixtures"],
         "samples": samples + fsamples,
         "evaluations": tot["safety"] + fs.get("Safety", 0),
@@ -47,6 +46,11 @@ def run(ctx):
                      "sphere_points": fs.get("sphere_pts", 0), "discarded": ftot["discarded"], "skipped": ftot["skipped"],
                      "other_clauses": ftot["other_clauses"]},
     })
+    if st:
+        ctx.coverage.update({"states": st, "transitions": tr})
+    knobs = {k: os.environ[k] for k in ("VERIF_NAV_WORLDS", "VERIF_NAV_SKIP", "VERIF_NAV_FIXTURES") if os.environ.get(k)}
+    if knobs:
+        ctx.coverage["restricted_by_debug_knobs"] = knobs
     ctx.assumptions += [
         "lattice worlds as in C03 (interior points = cell centres); true distance = exact distance to the nearest unit cell "
         "with a different volume path or to the world boundary",
